@@ -480,14 +480,21 @@ func TestMissingNodesAndRepair(t *testing.T) {
 
 // Large tries (more than 256 nodes, the store batch size): whole subtrees removed, repaired through both sync paths.
 func TestLargeRepair(t *testing.T) {
-	ev.Rapid(t, 4, 60)
+	ev.Rapid(t, 6, 60)
 	rapid.Check(t, func(rt *rapid.T) {
 		full := util.NewMemoryNodeDB()
 		mpt := mptkit.NewTrie(full, 0, nil)
 		model := map[string][]byte{}
 		n := gen.Uniform(rt, 300, 700, "nkeys")
+		leavesOnly := gen.Chance(rt, 50, "leavesonly")
+		if leavesOnly {
+			n = gen.Uniform(rt, 1200, 2600, "nkeysmany")
+		}
 		for i := 0; i < n; i++ {
 			p := fmt.Sprintf("%02x%02x%02x", (i*37)%256, (i*11)%256, i%256)
+			if leavesOnly {
+				p = fmt.Sprintf("%02x%02x%02x%02x", (i*37)%256, (i*11)%256, i%256, (i>>8)%256)
+			}
 			v := []byte{byte(i), byte(i >> 8), 7}
 			if _, err := mpt.Insert(util.Path(p), mptkit.Val(v)); err != nil {
 				rt.Fatalf("HARNESS: %v", err)
@@ -519,8 +526,31 @@ func TestLargeRepair(t *testing.T) {
 				subtree(w, tp, removed)
 			}
 		}
+		if leavesOnly {
+			// only leaves go, an exact number of them (each is an absent node reachable through present ones): 256, 512,
+			// 1024 and their neighbours, or more than a thousand
+			removed = map[string]bool{}
+			var leaves []string
+			for k, nd := range w.Reachable {
+				if nd.Type == refmpt.TLeaf {
+					leaves = append(leaves, k)
+				}
+			}
+			sort.Strings(leaves)
+			want := gen.Pick(rt, []int{255, 256, 257, 512, 1023, 1024, 1025, 1100, 1300, 1700, 2048}, "nleaves")
+			if want > len(leaves) {
+				want = len(leaves)
+			}
+			off := gen.Uniform(rt, 0, len(leaves)-want, "leafoff")
+			for _, k := range leaves[off : off+want] {
+				removed[k] = true
+			}
+		}
 		version := int64(gen.Pick(rt, []int{0, 3}, "version"))
 		mode := gen.Pick(rt, []string{"exact", "superset", "exact+MergeState", "superset+MergeState"}, "mode")
+		if leavesOnly && gen.Chance(rt, 40, "modemergedb") {
+			mode = "exact"
+		}
 		desc := func() string {
 			return fmt.Sprintf("large trie of %d keys (%d nodes), %d nodes removed, version %d, donor %s", n, len(w.Reachable), len(removed), version, mode)
 		}
@@ -563,5 +593,44 @@ func TestRepairWithValueAtTheSizeLimit(t *testing.T) {
 			runScenarioW(t, full, root, model, removed, int64(1+i%2), donorMode, "cold", desc)
 			ev.Case("size-limit-repair/"+donorMode, true, "value-at-the-size-limit")
 		}
+	})
+}
+
+// One fixed large repair through MergeDB: more than a thousand absent leaves, brought back from a donor that holds
+// exactly them (1100..1300 nodes in one call).
+func TestRepairOfMoreThanAThousandNodes(t *testing.T) {
+	ev.Guard(t, "TestRepairOfMoreThanAThousandNodes", func() {
+		seed := ev.SeedFor("TestRepairOfMoreThanAThousandNodes")
+		full := util.NewMemoryNodeDB()
+		mpt := mptkit.NewTrie(full, 0, nil)
+		model := map[string][]byte{}
+		n := 2200 + int(seed%300)
+		for i := 0; i < n; i++ {
+			p := fmt.Sprintf("%02x%02x%02x%02x", (i*37)%256, (i*11)%256, i%256, (i>>8)%256)
+			v := []byte{byte(i), byte(i >> 8), 9}
+			if _, err := mpt.Insert(util.Path(p), mptkit.Val(v)); err != nil {
+				t.Fatalf("HARNESS: %v", err)
+			}
+			model[p] = v
+		}
+		root := append([]byte(nil), mpt.GetRoot()...)
+		w := refmpt.WalkFrom(root, mptkit.GetterOf(full), false)
+		var leaves []string
+		for k, nd := range w.Reachable {
+			if nd.Type == refmpt.TLeaf {
+				leaves = append(leaves, k)
+			}
+		}
+		sort.Strings(leaves)
+		want := 1100 + int(seed%200)
+		removed := map[string]bool{}
+		for _, k := range leaves[:want] {
+			removed[k] = true
+		}
+		desc := func() string {
+			return fmt.Sprintf("trie of %d keys, %d leaves removed, repaired by one MergeDB call from a donor holding exactly them", n, want)
+		}
+		runScenario(t, full, root, model, removed, int64(seed%2)*2, "exact", desc)
+		ev.Case(desc(), true, "repair-of-more-than-1000-nodes")
 	})
 }
